@@ -39,6 +39,8 @@ def specResponse (e : End) (s : Bytes) : Option (Nat × List (Bytes × Bytes) ×
   let (m0, rest0) ← Spec.Resp.decodeOne false s
   let (m, rest) ← if m0.status == 100 then Spec.Resp.decodeOne false rest0 else pure (m0, rest0)
   if m.status == 100 then none
+  -- status-code = 3DIGIT (the strict line reader also accepts fewer digits at the end of the line)
+  if m.status < 100 then none
   -- a conforming server sends token field names and Content-Length values that fit an int
   if !m.fields.all (fun kv => Spec.Http.isToken kv.1) then none
   if !m.fields.all (fun kv => Spec.Resp.lowerAll kv.1 != Spec.Resp.sCL || kv.2.length ≤ 18) then none
